@@ -1,6 +1,8 @@
 """C15 — Keys and values encode canonically and decode losslessly (structural part)."""
+import re
 from sa.facts import AnalysisBroken, expr_str, qmatch, strip_casts, relpath, core
 from sa import cfg
+from sa.cfg import canon
 from sa.flow import arg_nodes
 from sa import codec
 
@@ -29,6 +31,57 @@ def traits_pairs(prog):
     return pairs
 
 
+def member_qns(f, a):
+    """members an argument denotes, looking through local reference aliases (auto& s = value.seconds)."""
+    out = set()
+    for x in a.walk():
+        if x.get("k") == "member" and x.get("qn"):
+            out.add(x["qn"])
+        elif x.get("k") == "ref" and x.get("did") is not None:
+            for d in f.nodes:
+                if d.get("k") == "decl":
+                    for v in d.get("vars", []):
+                        if v.get("did") == x["did"] and "init" in v and "&" in f.db_types[v["t"]]:
+                            out |= set(y["qn"] for y in f.nodes[v["init"]].walk() if y.get("k") == "member" and y.get("qn"))
+    return out
+
+
+class AllMembers(object):
+    def __contains__(self, x):
+        return True
+
+
+def constrained_by_guard(prog, f, ret):
+    """members that the test guarding an early exit talks about (directly or through a method of the record): when the
+    skipped member is one of them the test may determine it, and the rule does not judge the arithmetic."""
+    out = set()
+    for a in f.ancestors(ret):
+        if a.get("k") != "if":
+            continue
+        # decoder: the guarded arm assigns the whole record before leaving
+        for x in a.walk():
+            lhs = x.child("l") if x.get("k") == "bin" and x.get("op") == "=" else (x.child("obj") if x.get("k") == "call" and x.get("op") == "=" and "obj" in x else None)
+            if lhs is not None and strip_casts(lhs).get("k") == "ref" and f.params and strip_casts(lhs).get("did") == f.params[0]["did"] and x["id"] < ret["id"]:
+                return AllMembers()
+        todo = [a.child("c")]
+        # the condition may be a local computed earlier: follow one level of initialisers
+        for x in a.child("c").walk():
+            if x.get("k") == "ref":
+                for dn in f.nodes:
+                    if dn.get("k") == "decl":
+                        for v in dn.get("vars", []):
+                            if v.get("did") == x.get("did") and "init" in v:
+                                todo.append(f.nodes[v["init"]])
+        for t in todo:
+            for x in t.walk():
+                if x.get("k") == "member" and x.get("qn"):
+                    out.add(x["qn"])
+                if x.get("k") == "call" and x.get("fn"):
+                    for g in prog.fns(x["fn"]):
+                        out |= set(y["qn"] for y in g.nodes if y.get("k") == "member" and y.get("qn"))
+    return out
+
+
 def run(ctx):
     prog, rep = ctx.prog, ctx.report
 
@@ -46,6 +99,49 @@ def run(ctx):
         se, sd = codec.shape(d["encode"], CODERS), codec.shape(d["decode"], CODERS)
         n_pairs += 1
         r.check(se == sd and bool(se), "Traits<%s>" % short, "%d items" % len(se), "encoder shape %s differs from decoder shape %s" % (se, sd), d["encode"])
+    # ------------------------------------------------------------------
+    rc = rep.rule("R-CODEC-COMPLETE", "a record coder writes (and reads) every data member of the record on every path: no member is skipped under a "
+                                      "condition or behind an early return (a skipped member makes two distinct values encode alike), and an array member is "
+                                      "covered over its full extent", floor=8)
+    for cls, d in sorted(traits_pairs(prog).items()):
+        short = cls.split("BinaryCodingTraits<")[-1].rstrip(">")
+        rec = [r_ for n_, r_ in prog.records.items() if n_ == short and r_.get("fields")]
+        if not rec or "decode" not in d:
+            continue
+        qns = set(fl["qn"] for fl in rec[0]["fields"])
+        if not any(x.get("k") == "member" and x.get("qn") in qns for x in d["encode"].nodes):
+            rc.exempt("Traits<%s>" % short.split("::")[-1], "delegates to the record's own encode/decode members (checked by R-CODEC-SHAPE)")
+            continue
+        for side in ("encode", "decode"):
+            f = d[side]
+            for fld in rec[0]["fields"]:
+                site = "Traits<%s>::%s|%s" % (short.split("::")[-1], side, fld["n"])
+                ios = [c for c in f.calls() if "obj" in c and strip_casts(c.child("obj")).get("n") in CODERS and
+                       any(fld["qn"] in member_qns(f, a) for a in arg_nodes(c) if a is not None)]
+                if not ios:
+                    rc.violation(site, "member %s is never %s" % (fld["n"], "written" if side == "encode" else "read"), f)
+                    continue
+                c = ios[0]
+                anc = list(f.ancestors(c))
+                cond = [a for a in anc if a.get("k") in ("if", "switch", "cond", "while", "do", "forrange")]
+                early = [n for n in f.nodes if n.get("k") in ("return", "break", "continue") and n["id"] < c["id"] and
+                         fld["qn"] not in constrained_by_guard(prog, f, n)]
+                loops = [a for a in anc if a.get("k") == "for"]
+                ok, why = not cond and not early, ""
+                if cond:
+                    why = "member %s is %s only under a condition (%s at line %s)" % (fld["n"], "written" if side == "encode" else "read", cond[0]["k"], cond[0].get("ln"))
+                elif early:
+                    why = "an early %s at line %s can skip member %s" % (early[0]["k"], early[0].get("ln"), fld["n"])
+                m = re.match(r".*\[(\d+)\]$", fld.get("type", ""))
+                if ok and m:
+                    ext = int(m.group(1))
+                    ok = len(loops) == 1 and canon(loops[0].child("c")) in ("(i < %d)" % ext,) and \
+                        expr_str(loops[0].child("init")).replace(" ", "").endswith("i=0") and expr_str(loops[0].child("inc")).strip("()") in ("i++", "++i") and \
+                        any(x.get("k") == "index" and expr_str(core(x.child("i"))) == "i" for a in arg_nodes(c) for x in a.walk())
+                    why = "array member %s[%d] is not covered element by element over its full extent" % (fld["n"], ext)
+                elif ok and loops:
+                    ok, why = False, "scalar member %s is coded inside a loop" % fld["n"]
+                rc.check(ok, site, "", why, f, c)
     enc = prog.fn("buildsystem::BuildValue::toData")
     dec = [f for f in prog.fns("buildsystem::BuildValue::BuildValue") if len(f.params) == 1 and "BinaryDecoder" in f.param_type(0)]
     if len(dec) != 1:
@@ -231,6 +327,18 @@ def prog_type(f, call):
 
 
 VARIANTS = [
+    dict(name="fileinfo-missing-sentinel-compact-encoding", file="include/llbuild/Basic/FileInfo.h",
+         edits=[("    coder.write(value.device);\n", "    bool isMissing = value.isMissing();\n    coder.write(isMissing);\n    if (isMissing)\n      return;\n    coder.write(value.device);\n"),
+                ("    coder.read(value.device);\n", "    bool isMissing;\n    coder.read(isMissing);\n    if (isMissing) {\n      value = FileInfo{};\n      return;\n    }\n    coder.read(value.device);\n")],
+         expect=("R-CODEC-COMPLETE", "encode|checksum")),
+    dict(name="checksum-half-coded", file="include/llbuild/Basic/FileInfo.h",
+         edits=[("    for(int i=0; i<32; i++) {\n      coder.write(value.bytes[i]);", "    for(int i=0; i<16; i++) {\n      coder.write(value.bytes[i]);"),
+                ("    for(int i=0; i<32; i++) {\n      coder.read(value.bytes[i]);", "    for(int i=0; i<16; i++) {\n      coder.read(value.bytes[i]);")],
+         expect=("R-CODEC-COMPLETE", "bytes")),
+    dict(name="modtime-coded-only-when-nonzero-size", file="include/llbuild/Basic/FileInfo.h",
+         edits=[("    coder.write(value.modTime);\n", "    if (value.size) coder.write(value.modTime);\n"),
+                ("    coder.read(value.modTime);\n", "    if (value.size) coder.read(value.modTime);\n")],
+         expect=("R-CODEC-COMPLETE", "modTime")),
     dict(name="fileinfo-decode-order-swapped", file="include/llbuild/Basic/FileInfo.h",
          old="    coder.read(value.device);\n    coder.read(value.inode);", new="    coder.read(value.inode);\n    coder.read(value.device);", expect=("R-CODEC-SHAPE", "Traits<FileInfo>")),
     dict(name="fileinfo-encode-drops-checksum", file="include/llbuild/Basic/FileInfo.h",
